@@ -58,25 +58,33 @@ def getTok (j : Json) : Except String Tok := do
 def styleName : FStyle → String
   | .g => "g" | .e => "e" | .f => "f"
 
-/-- which branch of `ValueNode.format` the model takes, for the input distribution -/
-def branchTag (n : Node) : String :=
-  if !valueChanged n then "unchanged" else
+/-- which branch of `ValueNode.format` the model takes (for the input distribution) and the `Dec` it lays out -/
+def branchTag (n : Node) : String × Option Dec :=
+  if !valueChanged n then ("unchanged", none) else
   match n.value with
-  | none => "none"
+  | none => ("none", none)
   | some _ =>
     let n := reverseEngineerFormatting n
     match printValue n with
-    | none => "none"
+    | none => ("none", none)
     | some x =>
-      if n.ty = .int then "int"
-      else if canFloatToIntHappen n then "float-as-int"
+      if n.ty = .int then ("int", some ⟨decide (x.trunc < 0), x.trunc.natAbs, 0, none⟩)
+      else if canFloatToIntHappen n then ("float-as-int", some ⟨decide (x.round < 0), x.round.natAbs, 0, none⟩)
       else
         let cands := floatStyles n
-        let rec go : List (FStyle × Nat) → Nat → String
-          | [], _ => "float:none"
-          | [sp], k => s!"float:{styleName sp.1}:{sp.2}:+{k}"
-          | sp :: r, k => if readsBack (formatFloatAs n.fmt x sp) x then s!"float:{styleName sp.1}:{sp.2}:+{k}" else go r (k + 1)
+        let decOf (sp : FStyle × Nat) : Dec := match sp.1 with | .e => decE x sp.2 | .g => decG x sp.2 | .f => decF x sp.2
+        let rec go : List (FStyle × Nat) → Nat → String × Option Dec
+          | [], _ => ("float:none", none)
+          | [sp], k => (s!"float:{styleName sp.1}:{sp.2}:+{k}", some (decOf sp))
+          | sp :: r, k => if readsBack (formatFloatAs n.fmt x sp) x then (s!"float:{styleName sp.1}:{sp.2}:+{k}", some (decOf sp)) else go r (k + 1)
         go cands 0
+
+/-- run-time validation of what is not proved for floats: the written word is read back, by the Spec reader and by
+    the model's `fortran_float`, as exactly the value of the `Dec` that was laid out -/
+def renderOk (d : Option Dec) (w : Text) : Json :=
+  match d with
+  | none => Json.null
+  | some d => Json.bool (Spec.parseChars w == some d.value && fortranFloat w == some d.value)
 
 def runNode (j : Json) : Except String Json := do
   let tok ← getTok (← j.getObjVal? "token")
@@ -114,7 +122,7 @@ def runNode (j : Json) : Except String Json := do
       let nb ← if b.isNull then pure none else (b.getBool?).map some
       n := setIsNegative n nb
     | "format" =>
-      let tag := branchTag n
+      let (tag, dec) := branchTag n
       let pv := printValue n
       let (n', t) := format n
       n := n'
@@ -123,7 +131,8 @@ def runNode (j : Json) : Except String Json := do
       let close := match y, pv with
         | some y, some x => Json.bool (decide (Spec.isClose y x.toRat))
         | _, _ => Json.null
-      outs := outs.push (Json.mkObj [("text", txt t), ("branch", tag), ("word", txt w), ("spec", optRat y), ("close", close)])
+      outs := outs.push (Json.mkObj [("text", txt t), ("branch", tag), ("word", txt w), ("spec", optRat y), ("close", close),
+                                     ("render_ok", renderOk dec w)])
     | _ => throw s!"op {name}"
   return Json.mkObj [("init", "ok"), ("outs", Json.arr outs)]
 
@@ -142,10 +151,10 @@ def runState (j : Json) : Except String Json := do
   let isNeg ← if b.isNull then pure none else (b.getBool?).map some
   let n : Node := { token := tok, ty, padding := pad, neverPad, value, ogValue := og, isNegId, isNegVal, isNeg,
                     fmt := (match ty with | .float => floatDefaults | .int => intDefaults), isReversed := false }
-  let tag := branchTag n
+  let (tag, dec) := branchTag n
   let (_, t) := format n
   let w := Spec.firstWord t
-  return Json.mkObj [("text", txt t), ("branch", tag), ("word", txt w), ("spec", optRat (Spec.parseChars w))]
+  return Json.mkObj [("text", txt t), ("branch", tag), ("word", txt w), ("spec", optRat (Spec.parseChars w)), ("render_ok", renderOk dec w)]
 
 def runPyFormat (j : Json) : Except String Json := do
   let style ← (← j.getObjVal? "style").getStr?
@@ -154,14 +163,18 @@ def runPyFormat (j : Json) : Except String Json := do
   let sign := sign.toList.headD '-'
   let width ← (← j.getObjVal? "width").getNat?
   let x ← getNum (← j.getObjVal? "x")
-  let t ← match style with
-    | "f" => pure (renderPy sign width (decF x p))
-    | "g" => pure (renderPy sign width (decG x p))
-    | "e" => pure (renderPy sign width (decE x p))
-    | "d" => pure (fmtD sign width x.trunc)
-    | "round" => pure (toString x.round).toList
-    | _ => throw "style"
-  return Json.mkObj [("text", txt t), ("spec", optRat (Spec.parseChars (Spec.firstWord t)))]
+  let dec : Option Dec := match style with
+    | "f" => some (decF x p)
+    | "g" => some (decG x p)
+    | "e" => some (decE x p)
+    | "d" => some ⟨decide (x.trunc < 0), x.trunc.natAbs, 0, none⟩
+    | _ => none
+  let t ← match style, dec with
+    | "round", _ => pure (toString x.round).toList
+    | _, some d => pure (renderPy sign width d)
+    | _, none => throw "style"
+  let w := Spec.firstWord t
+  return Json.mkObj [("text", txt t), ("spec", optRat (Spec.parseChars w)), ("render_ok", renderOk dec w)]
 
 def runCase (j : Json) : Except String Json := do
   match j.getObjVal? "unit" with
